@@ -26,6 +26,16 @@
 (*    Normalise  lines 475-476  logw -= logaddexp.reduce(logw)              *)
 (* TLC's state dump is the list of test cases replayed into the real code.  *)
 (*                                                                          *)
+(* Object reuse (Reuse = TRUE).  The property speaks about the history that *)
+(* is stored NOW.  One StateManager object lives on: after a completed      *)
+(* query the stored history may be REPLACED wholesale (update_from_dict,     *)
+(* load_state, Sampler.load_state, run(resume_state_path=..)) or grow by a  *)
+(* Commit, and is then queried again.  mixK/mixB/mixD are what an            *)
+(* implementation may keep between queries (they do not depend on           *)
+(* beta_final); the intended semantics drops them whenever the stored       *)
+(* history changes.  Variant "StaleMix" drops them only in Commit - the      *)
+(* results then belong to a history that is no longer stored.               *)
+(*                                                                          *)
 (* Variant = "intended" is the formula of the property.  The other values   *)
 (* are seeded WRONG formulas; TLC must refute each of them (non-vacuity of  *)
 (* the invariants below).                                                   *)
@@ -39,14 +49,16 @@ CONSTANTS Ts,         \* set of history lengths T explored
           Bs,         \* set of b (beta_t = b/2)
           Bfs,        \* set of bf (beta_final = bf/2)
           ShiftMax,   \* ShiftInvariant is checked for the even c # 0 in -ShiftMax..ShiftMax
-          Variant,    \* "intended" | "NoLogZ" | "NoMixW" | "MixT" | "MeanT" | "MaxNorm"
+          Variant,    \* "intended" | "NoLogZ" | "NoMixW" | "MixT" | "MeanT" | "MaxNorm" | "StaleMix"
+          Reuse,      \* TRUE: the object is reused (Replace / Commit after a completed query, at most twice)
+          ReplMod,    \* Replace installs the histories with Hash % ReplMod = 0
           SampleMod,  \* keep only histories with (Hash + SampleSalt) % SampleMod = 0  (1 = keep all)
           BatchMod,   \* build histories only from batches with (BHash + SampleSalt) % BatchMod = 0  (1 = all)
           SampleSalt  \* derived from VERIF_SEED
 
-VARIABLES pc, hist, bf, mixB, w, z, W
+VARIABLES pc, hist, bf, mixK, mixB, mixD, w, z, W, gen
 
-vars == <<pc, hist, bf, mixB, w, z, W>>
+vars == <<pc, hist, bf, mixK, mixB, mixD, w, z, W, gen>>
 
 \* (the .cfg syntax has no negative literals, hence the symmetric ranges)
 Ks     == {k \in (0 - KMax)..KMax : k % 2 = 0}
@@ -201,32 +213,68 @@ Init ==
     /\ pc = "hist"
     /\ \E TT \in Ts : hist \in {h \in [1..TT -> BatchSet] : Keep(h)}
     /\ bf = -1
-    /\ mixB = <<>>
+    /\ mixK = <<>> /\ mixB = <<>> /\ mixD = 0
     /\ w = <<>>
     /\ z = Zero
     /\ W = <<>>
+    /\ gen = 0
 
+\* the beta_final-independent part: flattened logl, B and the mixture normaliser; kept if still there
 Mix ==
     /\ pc = "hist"
-    /\ mixB' = MixAll(hist)
+    /\ IF mixB # <<>> THEN UNCHANGED <<mixK, mixB, mixD>>
+       ELSE /\ mixK' = FlatKs(hist)
+            /\ mixB' = MixAll(hist)
+            /\ mixD' = CoefDen(hist)
     /\ pc' = "mixed"
-    /\ UNCHANGED <<hist, bf, w, z, W>>
+    /\ UNCHANGED <<hist, bf, w, z, W, gen>>
 
 Weigh(f) ==
     /\ pc = "mixed"
     /\ bf' = f
-    /\ w' = UnnormFrom(hist, f, mixB)
+    /\ w' = UnnormTo(f, mixK, mixB, mixD, Len(mixK))
     /\ z' = EvidFrom(hist, w')
     /\ pc' = "weighed"
-    /\ UNCHANGED <<hist, mixB, W>>
+    /\ UNCHANGED <<hist, mixK, mixB, mixD, W, gen>>
 
 Normalise ==
     /\ pc = "weighed"
     /\ W' = NormFrom(w)
     /\ pc' = "done"
-    /\ UNCHANGED <<hist, bf, mixB, w, z>>
+    /\ UNCHANGED <<hist, bf, mixK, mixB, mixD, w, z, gen>>
 
-Next == Mix \/ (\E f \in Bfs : Weigh(f)) \/ Normalise
+\* --- object reuse: the stored history changes under a living object
+GenMax == 2
+MaxT == CHOOSE t \in Ts : \A u \in Ts : u <= t
+
+ReplSet == UNION {{h \in [1..TT -> BatchSet] : Hash(h) % ReplMod = 0} : TT \in Ts}
+
+Forget == /\ bf' = -1 /\ w' = <<>> /\ z' = Zero /\ W' = <<>>
+
+\* update_from_dict / load_state / Sampler.load_state / resume: the whole history is replaced, no commit
+Replace(h2) ==
+    /\ Reuse /\ pc = "done" /\ gen < GenMax
+    /\ h2 # hist
+    /\ hist' = h2
+    /\ IF Variant = "StaleMix" THEN UNCHANGED <<mixK, mixB, mixD>>
+                               ELSE mixK' = <<>> /\ mixB' = <<>> /\ mixD' = 0
+    /\ Forget
+    /\ gen' = gen + 1
+    /\ pc' = "hist"
+
+\* commit_current_to_history: one more batch
+Commit(bt) ==
+    /\ Reuse /\ pc = "done" /\ gen < GenMax
+    /\ Len(hist) < MaxT
+    /\ hist' = Append(hist, bt)
+    /\ mixK' = <<>> /\ mixB' = <<>> /\ mixD' = 0
+    /\ Forget
+    /\ gen' = gen + 1
+    /\ pc' = "hist"
+
+Next == \/ Mix \/ (\E f \in Bfs : Weigh(f)) \/ Normalise
+        \/ (\E h2 \in ReplSet : Replace(h2))
+        \/ (\E bt \in BatchSet : Commit(bt))
 
 Spec == Init /\ [][Next]_vars
 
@@ -242,12 +290,23 @@ TypeOK ==
     /\ Len(hist) \in Ts
     /\ \A t \in 1..Len(hist) : hist[t].n = Len(hist[t].ks)
     /\ IsQ(z)
-    /\ pc # "hist" => /\ Len(mixB) = NTot(hist)
-                      /\ \A s \in 1..Len(mixB) : mixB[s] > 0
+    /\ gen \in 0..GenMax
+    /\ Len(mixB) = Len(mixK)
+    /\ \A s \in 1..Len(mixB) : mixB[s] > 0
     /\ Done => /\ bf \in Bfs
-               /\ Len(w) = NTot(hist) /\ Len(W) = NTot(hist)
+               /\ Len(w) = Len(W)
                /\ \A s \in 1..Len(w) : /\ IsQ(w[s]) /\ w[s][1] > 0     \* finite and strictly positive
                                        /\ IsQ(W[s]) /\ W[s][1] > 0
+
+\* "For every STORED history": whatever happened to the object before (earlier queries, replaced
+\* histories, commits), a completed query is the formula evaluated on the history stored now.
+CurrentHistoryOnly ==
+    /\ pc \in {"mixed", "weighed", "done"} =>
+           /\ mixK = FlatKs(hist) /\ mixB = MixAll(hist) /\ mixD = CoefDen(hist)
+    /\ Done => /\ Len(w) = NTot(hist)
+               /\ w = UnnormW(hist, bf)
+               /\ z = Evid(hist, bf)
+               /\ W = NormW(hist, bf)
 
 \* The property text, as equations (cross-multiplied, plain rationals, no Variant, no scaling):
 \*   w_s * SUM_t (n_t/N) 2^(b_t k_s/2 - m_t) = 2^(bf k_s/2) ;  Z * N = SUM_s w_s ;  W_s * SUM_r w_r = w_s
@@ -261,7 +320,8 @@ Formula ==
         LET N  == NTot(hist)
             ks == FlatKs(hist)
             Sw == QSum(w)
-        IN  /\ \A s \in 1..N :
+        IN  /\ Len(w) = N /\ Len(W) = N
+            /\ \A s \in 1..N :
                  /\ QMul(w[s], DeclMixTo(hist, ks[s], N, Len(hist))) = QPow2((bf * ks[s]) \div 2)
                  /\ QMul(W[s], Sw) = w[s]
             /\ QMul(z, QInt(N)) = Sw
@@ -354,7 +414,7 @@ IntMaxTo(seq, skip, i) ==
 
 Enclosure ==
     pc # "hist" =>
-        LET ks == FlatKs(hist)
+        LET ks == mixK
         IN  \A s \in 1..Len(ks) :
                 LET cs == TermsTo(hist, ks[s], Len(hist))
                     mx == IntMaxTo(cs, 0, Len(cs))
